@@ -4,6 +4,7 @@ pub mod offset;
 pub mod utf8;
 pub mod related;
 pub mod textops;
+pub mod store;
 
 pub fn run(family: &str, opts: &Opts) -> Option<Report> {
     // "family@m<interval>s<0|1>" runs the family under a store configuration variant
@@ -30,6 +31,7 @@ fn run_base(family: &str, opts: &Opts) -> Option<Report> {
         "utf8" => Some(utf8::run(opts)),
         "related" => Some(related::run(opts)),
         "textops" => Some(textops::run(opts)),
+        "store" => Some(store::run(opts)),
         _ => None,
     }
 }
